@@ -60,9 +60,10 @@ Query(g, d, strat, ms) == /\ UNCHANGED <<prog, facts>>
                           /\ last' = [op |-> "query", gf |-> g[1], gv |-> g[2], depth |-> d, strat |-> strat, maxsol |-> ms,
                                       may |-> g \in May(prog, facts), must |-> MustProve(prog, facts, g, d, strat)]
 (* a query on the persistent engine (C11): must agree with a fresh engine on the same facts *)
-PQuery(g, d, strat, neg, ms) ==
+(* cp: the caller hands the persistent engine a fresh store holding the facts it asserted (no earlier derivations) *)
+PQuery(g, d, strat, neg, ms) == \E cp \in BOOLEAN :
                        /\ UNCHANGED <<prog, facts>>
-                       /\ last' = [op |-> "pquery", gf |-> g[1], gv |-> g[2], depth |-> d, strat |-> strat, neg |-> neg, maxsol |-> ms, rete |-> FALSE]
+                       /\ last' = [op |-> "pquery", gf |-> g[1], gv |-> g[2], depth |-> d, strat |-> strat, neg |-> neg, maxsol |-> ms, rete |-> FALSE, copy |-> cp]
 
 Next == /\ nops' = nops + 1
         /\ \/ \E r \in RuleSet : AddRule(r)
